@@ -49,6 +49,8 @@ func evalCanon(s zygo.Sexp, d int) string {
 		return "fn"
 	case *zygo.SexpLazyArg:
 		return "lazy"
+	case *zygo.SexpSymbol:
+		return x.Name() // symbols occur as data only in the source `substitute` returns (C16)
 	case *zygo.SexpArray:
 		if d == 0 {
 			return "..."
@@ -114,6 +116,10 @@ func evalExecInner(toks []string) string {
 	}
 	env := zygo.NewZlisp()
 	defer env.Close()
+	if len(toks) > 0 && toks[0] == "+std" {
+		toks = toks[1:] // channel `lazy` (C16): typed `func` declarations need the standard builders
+		env.StandardSetup()
+	}
 	var trace []string
 	env.AddFunction("trace", func(env *zygo.Zlisp, name string, args []zygo.Sexp) (zygo.Sexp, error) {
 		if len(args) == 0 {
